@@ -14,6 +14,8 @@ pub enum SubSel {
     Absent,
     /// identifiers of the first two subscribe ops together
     Both,
+    /// identifier of the first subscribe op, of the second, and of the first again (carried twice, not adjacent)
+    Repeat,
 }
 
 #[derive(Clone, Copy, Debug, PartialEq, Eq, Hash)]
@@ -186,7 +188,7 @@ pub fn enabled(w: &World, a: &Alpha) -> Vec<Act> {
             for &(qos, id, dup, sub) in &a.inbound {
                 match sub {
                     SubSel::Op(k) if (k as usize) >= subs.len() => continue,
-                    SubSel::Both if subs.len() < 2 => continue,
+                    SubSel::Both | SubSel::Repeat if subs.len() < 2 => continue,
                     _ => {}
                 }
                 v.push(Act::InPub { qos, id, dup, sub });
@@ -285,6 +287,10 @@ pub fn apply(w: &mut World, act: Act) {
                 SubSel::Never => vec![0x0fff_fff1],
                 SubSel::Absent => vec![],
                 SubSel::Both => vec![w.m[subs[0]].sub_id.unwrap_or(0x0fff_fff0), w.m[subs[1]].sub_id.unwrap_or(0x0fff_fff2)],
+                SubSel::Repeat => {
+                    let (a, b) = (w.m[subs[0]].sub_id.unwrap_or(0x0fff_fff0), w.m[subs[1]].sub_id.unwrap_or(0x0fff_fff2));
+                    vec![a, b, a]
+                }
             };
             w.in_publish(qos, id, dup, &ids, false);
         }
